@@ -818,7 +818,12 @@ fn run_multi(line: &str) -> String {
                 }
             }
         }
-        let ntmp = |d: &Dirs| std::fs::read_dir(&d.tmp).map(|r| r.count()).unwrap_or(0);
+        // number of directory entries under tmp/ and (recursively) under cache/: a client that reacted to a
+        // response head has created its temp file (wherever it puts it) or the leaf directory
+        fn count(dir: &Path) -> usize {
+            std::fs::read_dir(dir).map(|r| r.flatten().map(|e| 1 + if e.path().is_dir() { count(&e.path()) } else { 0 }).sum()).unwrap_or(0)
+        }
+        let ntmp = |d: &Dirs| count(&d.tmp) + count(&d.cache);
         let mut snaps: Vec<String> = Vec::new();
         for j in 0..nc {
             if results[j].is_none() && clients[j].as_ref().map(|h| h.is_finished()).unwrap_or(false) {
@@ -861,7 +866,7 @@ fn run_multi(line: &str) -> String {
                                 _ => fin,
                             };
                             // the reaction to a head takes a few ms; E waits for the client's own timeout at most
-                            if ok || n > (if op == 'E' { 2 * (c.tmo as usize + 1000) } else { 1500 }) {
+                            if ok || n > (if op == 'E' { 2 * (c.tmo as usize + 1000) } else { 600 }) {
                                 break;
                             }
                             tick().await;
